@@ -60,6 +60,33 @@ def slice_names(fn, expr, sd, depth=0, seen=None):
 
 def analyse(facts, tier):
     obls = []
+    # ---- R2 (drum key): a fixed drum key is stored biased by 128 when the bank wants key 0..127 verbatim; the biased range must start
+    # exactly at the bias, otherwise one key value is programmed 128 semitones off
+    non = facts.fn('OPNMIDIplay::realTime_NoteOn')
+    nd = 0
+    for b, j, st in non.cfg.stmts():
+        for x in walk(st['s']):
+            ap = assign_parts(x)
+            if not (ap and strip(ap[0]).get('k') == 'DeclRefExpr' and short(strip(ap[0])['n']) == 'tone'):
+                continue
+            r = strip(ap[1])
+            if r.get('k') == 'BinaryOperator' and r['op'] == '-' and mentions(r['l'], member_named('drumTone')) and const_of(r['r']) is not None:
+                nd += 1
+                bias = const_of(r['r'])
+                lo = None
+                for f in guard_facts(non, b, st):
+                    n_ = cmp_norm(f) if f[0] == 'cmp' else None
+                    if n_ and mentions(n_[1], member_named('drumTone')):
+                        if n_[0] == '>=':
+                            lo = n_[2] if lo is None else max(lo, n_[2])
+                        elif n_[0] == '>':
+                            lo = n_[2] + 1 if lo is None else max(lo, n_[2] + 1)
+                ok = lo == bias
+                obls.append(Obl('C10.R2', non.name, 'drum key decoded as drumTone - %d' % bias, st['loc'], 'discharged' if ok else 'finding',
+                                why='applies exactly to drumTone >= %d' % bias if ok else
+                                'the bias %d is subtracted for drumTone >= %s: the boundary value is programmed %d semitones away from the bank\'s drum key' % (bias, lo, bias)))
+    if nd < 1:
+        raise build.AnalysisBroken('C10.R2: the biased drum-key decoding (tone = drumTone - 128) was not found in realTime_NoteOn')
     # ---- R1
     pbs = facts.fns.get('OPNMIDIplay::realTime_PitchBend', [])
     if len(pbs) < 2:
